@@ -23,8 +23,8 @@ type Config struct {
 	Deck        string  `json:"deck"`    // named deck layout, see decks.go
 	Hole        int     `json:"hole"`
 	Required    int     `json:"required"`
-	Table       string  `json:"table"`   // "standard" | "short"
-	Amounts     string  `json:"amounts"` // "all" (every integer in range) | "classes" (threshold representatives)
+	Table       string  `json:"table"`                     // "standard" | "short"
+	Amounts     string  `json:"amounts"`                   // "all" (every integer in range) | "classes" (threshold representatives)
 	BurnZero    bool    `json:"burn_count_zero,omitempty"` // options carry BurnCount 0 (e.g. built from a bare literal / JSON without the field)
 }
 
